@@ -816,7 +816,7 @@ func porcupineCheck(k *vf.Case, h *harness, readers []readerSpec, cfgStr string)
 
 func main() {
 	vf.Main("C02", "exploration", func(c *vf.Ctx) {
-		c.Rule = "seeded concurrent histories: 2-16 goroutines x 200-2000 Adds of small integers on int64/float64 counters and up-down counters, own attribute sets (value stream identifiable) plus two shared hot sets; 1-3 readers mixing ManualReader and PeriodicReader (interval 1-5 ms, instant/slow/failing recording exporter) x delta/cumulative; collector goroutines call Collect (fresh and re-used ResourceMetrics), user-level PeriodicReader.Collect, ForceFlush; final manual collections then MeterProvider.Shutdown; GOMAXPROCS{2,4,16}; -race. distinct = distinct (reader mix, goroutines, procs, sets, overlap seen) signatures"
+		c.Rule = "seeded concurrent histories: 2-16 goroutines x 200-2000 Adds of small integers on int64/float64 counters and up-down counters, own attribute sets (value stream identifiable) plus two shared hot sets; 1-3 readers mixing ManualReader and PeriodicReader (interval 1-5 ms, instant/slow/failing recording exporter) x delta/cumulative; collector goroutines call Collect (fresh and re-used ResourceMetrics), user-level PeriodicReader.Collect, ForceFlush; final manual collections then MeterProvider.Shutdown; in half of the histories the hot sets are recorded through metric.WithAttributes over one shared caller-owned unsorted slice with a duplicate key; GOMAXPROCS{2,4,16}; -race. distinct = distinct (reader mix, goroutines, procs, sets, overlap seen) signatures"
 		c.Assume = []string{"an up-down counter's running total is bounded by [completed positives - started negatives, started positives - completed negatives]", "for interval exports only the upper bound (sampled at Export entry), monotonicity and the post-ForceFlush lower bound are asserted", "what the exporter is handed counts as reported"}
 		otel.SetErrorHandler(otel.ErrorHandlerFunc(func(error) {}))
 		n := c.N(600, 6000)
